@@ -123,7 +123,7 @@ def layout(rng, form_texts):
                 if prev in ("(", "'", "#(") or tk == ")":
                     sep = rng.choice(["", "", "", " ", "\n" + " " * rng.randint(0, 6)])
                 else:
-                    sep = rng.choice([" ", " ", " ", "  ", "\n" + " " * rng.randint(0, 8), " ; note )(\n" + " " * rng.randint(0, 4), "\t"])
+                    sep = rng.choice([" ", " ", " ", "  ", "\n" + " " * rng.randint(0, 8), " ; note )(\n" + " " * rng.randint(0, 4), "\t", " ; \u017c\u00f3\u0142w \u2713\n"])
                 emit(sep)
             start = (line, col)
             emit(tk)
@@ -198,7 +198,10 @@ def run(ctx):
         pre = HELPERS + pre if "helper-" in S.render(f) else pre
         pre = MACROS + pre if "-all " in S.render(f) else pre
         ftext = S.render(f)
-        if rng.random() < 0.2 and not ftext.startswith("(define"):
+        if rng.random() < 0.25 and not ftext.startswith("(define"):
+            # characters that take several bytes, earlier on the line: a column counts characters
+            ftext = '(begin "za\u017c\u00f3\u0142\u0107 \u2014 \u65e5\u672c ok" %s)' % ftext
+        elif rng.random() < 0.2 and not ftext.startswith("(define"):
             ftext = '(begin "two\nlines (" %s)' % ftext
         texts = ["(import (scheme base) (scheme write))"] + pre + [ftext] + ["(display 'never-reached)"]
         text, extents, positions = layout(rng, texts)
